@@ -1,7 +1,7 @@
 #!/bin/bash
 # runs every claimed check at the given tier (default quick) and prints one status line each
 tier=${1:-quick}
-cd /verif
+cd "$(dirname "$0")"
 for p in $(python3 -c "import json; print(' '.join(c['property_id'] for c in json.load(open('MANIFEST.json'))['checks']))"); do
   out=$(./check $p --tier $tier 2>&1); rc=$?
   echo "$p rc=$rc $(echo "$out" | tail -1)"
